@@ -968,11 +968,110 @@ pub fn size_sweep_records() -> Vec<RefRR> {
     out
 }
 
+/// Names built from labels that DNS software gives a meaning to (special-use domains, reverse
+/// mapping, DNS-SD and mDNS conventions, IDNA prefixes): every sequence of <= `max_labels` labels
+/// over the dictionary plus the well-known full names.
+pub fn dictionary_labels() -> Vec<&'static str> {
+    vec![
+        "local", "LOCAL", "Local", "arpa", "ARPA", "in-addr", "IN-ADDR", "ip6", "254", "169", "8", "e", "f", "b", "0", "_tcp", "_udp", "_services", "_dns-sd", "_sub", "_http", "localhost", "home", "invalid", "test", "onion",
+        "example", "com", "www", "xn--nxasmq6b", "*", "_",
+    ]
+}
+
+pub fn dictionary_names(max_labels: usize) -> Vec<RefName> {
+    let d = dictionary_labels();
+    let mut out: Vec<RefName> = vec![RefName::root()];
+    let mut level: Vec<Vec<&str>> = vec![vec![]];
+    for _ in 0..max_labels {
+        let mut next = Vec::new();
+        for p in &level {
+            for l in &d {
+                let mut q = p.clone();
+                q.push(*l);
+                out.push(RefName(q.iter().map(|x| b(x.as_bytes())).collect()));
+                next.push(q);
+            }
+        }
+        level = next;
+    }
+    for full in [
+        "254.169.in-addr.arpa", "1.254.169.in-addr.arpa", "4.3.2.1.in-addr.arpa", "1.0.0.127.in-addr.arpa", "8.e.f.ip6.arpa", "9.e.f.ip6.arpa", "a.e.f.ip6.arpa", "b.e.f.ip6.arpa", "0.8.e.f.ip6.arpa",
+        "b._dns-sd._udp.local", "db._dns-sd._udp.local", "r._dns-sd._udp.local", "lb._dns-sd._udp.local", "_services._dns-sd._udp.local", "_printer._sub._http._tcp.local", "My Printer._ipp._tcp.local", "local.local", "local.com",
+        "com.local.", "1.0.0.0.0.0.0.0.0.0.0.0.0.0.0.0.0.0.0.0.0.0.0.0.0.0.0.0.0.0.0.0.ip6.arpa",
+    ] {
+        out.push(RefName::txt(full.trim_end_matches('.')));
+    }
+    out
+}
+
+/// A reduced size ladder for products of two size parameters.
+pub fn size_ladder(k: Kind) -> Vec<Val> {
+    match k {
+        Kind::Str => [0usize, 1, 2, 31, 32, 63, 64, 65, 120, 127, 128, 129, 200, 254, 255].iter().map(|n| Val::Str(bytes_n(*n, *n as u8))).collect(),
+        Kind::Tail => [0usize, 1, 2, 15, 16, 17, 63, 64, 65, 255, 256, 257, 508, 509, 512, 1000].iter().map(|n| Val::Tail(bytes_n(*n, *n as u8))).collect(),
+        Kind::Name(_) => {
+            let mut v: Vec<Val> = [1usize, 2, 3, 31, 32, 33, 63, 64, 65, 100, 127].iter().map(|nl| Val::Name(RefName((0..*nl).map(|j| B(vec![b'a' + (j % 26) as u8])).collect()))).collect();
+            v.push(Val::Name(RefName::root()));
+            v.push(Val::Name(max_name()));
+            v.push(Val::Name(RefName(vec![label_n(63, b'm'), b(b"example")])));
+            v
+        }
+        Kind::Strs => [1usize, 2, 32, 33, 70].iter().map(|n| Val::Strs((0..*n).map(|j| bytes_n(j % 7, j as u8)).collect())).collect(),
+        Kind::Params => [0usize, 1, 8, 24].iter().map(|n| Val::Params((0..*n).map(|j| ((j * 3) as u16, bytes_n(j % 5, j as u8))).collect())).collect(),
+        Kind::Windows => [1usize, 2, 36].iter().map(|n| Val::Windows((0..*n).map(|j| ((j * 7) as u8, bytes_n(1 + j % 32, j as u8))).collect())).collect(),
+        _ => vec![],
+    }
+}
+
+/// Products of two size parameters: for every schema and every pair of variable-size fields, every
+/// pair of values of the reduced ladder; and for every schema with one such field, that field's
+/// ladder x the owner-name ladder.
+pub fn size_pair_records() -> Vec<RefRR> {
+    let mut out = Vec::new();
+    for sch in SCHEMAS {
+        let base = default_vals(sch);
+        let kinds = val_kinds(sch);
+        let var: Vec<usize> = (0..kinds.len()).filter(|i| !size_ladder(kinds[*i]).is_empty()).collect();
+        for (ai, a) in var.iter().enumerate() {
+            for b2 in var.iter().skip(ai + 1) {
+                for va in size_ladder(kinds[*a]) {
+                    for vb in size_ladder(kinds[*b2]) {
+                        let mut x = base.clone();
+                        x[*a] = va.clone();
+                        x[*b2] = vb;
+                        if !vals_wire_representable(sch, &x) || !vals_rfc_canonical(&x) {
+                            continue;
+                        }
+                        let mut r = base_rr(sch);
+                        r.rdata = RefRData::Typed { code: sch.code, vals: x };
+                        out.push(r);
+                    }
+                }
+            }
+            for va in size_ladder(kinds[*a]) {
+                for owner in size_ladder(Kind::Name(Comp::Rfc1035)) {
+                    let Val::Name(owner) = owner else { continue };
+                    let mut x = base.clone();
+                    x[*a] = va.clone();
+                    if !vals_wire_representable(sch, &x) || !vals_rfc_canonical(&x) {
+                        continue;
+                    }
+                    let mut r = base_rr(sch);
+                    r.name = owner;
+                    r.rdata = RefRData::Typed { code: sch.code, vals: x };
+                    out.push(r);
+                }
+            }
+        }
+    }
+    out
+}
+
 /// The size sweep as packets: the record between a question for its owner and a CNAME naming
 /// the same owner; plus owner / question names over the whole name size sweep.
 pub fn size_sweep_packets() -> Vec<RefPacket> {
     let mut out = Vec::new();
-    for r in size_sweep_records() {
+    for r in size_sweep_records().into_iter().chain(size_pair_records()) {
         let mut p = RefPacket { id: 0x5123, flags: F_QR | F_AA, ..Default::default() };
         p.questions.push(RefQ { name: r.name.clone(), qtype: 255, qclass: 1, unicast: false });
         let owner = r.name.clone();
